@@ -1420,6 +1420,7 @@ func main() {
 	if a == nil {
 		r.Finish()
 	}
+	shapeFamily(r, a)    // shapes.go: bundle shapes (next-update along the time line, base/delta relations) and near-identical URL byte strings
 	hostileFamily(r, a)  // hostile.go: path-special values in every component of the URL (replays its own cases)
 	instanceFamily(r, a) // instances.go: two-instance / external-change histories (replays its own cases)
 	if r.Replay != "" {
